@@ -42,7 +42,8 @@ def decode(v):
             cls = resolve(v['$record'])
             return cls(**fields)
         if '$abstract' in v:
-            return None
+            # an abstract callable parameter: the sidecar's native stand-in native_<name>
+            return getattr(decode.cmod, 'native_' + v['$abstract'], None) if getattr(decode, 'cmod', None) else None
         if '$nested_counter_element' in v:
             # abstract argument list: replay on a one-cell range holding the element for which the
             # pointwise obligation failed (plus a number, so that folds are non-trivial)
@@ -91,6 +92,7 @@ def call_native(spec, args):
 def replay(spec):
     """Returns (reproduced: bool, observed: str)."""
     cmod = importlib.import_module(spec['contract_module'])
+    decode.cmod = cmod
     names = spec['param_order']
     args = [decode(spec['args'][n]) for n in names]
     kind = spec['kind']
